@@ -198,6 +198,46 @@ def judgePct (c lo hi : F64.Bits) (text : String) : String :=
 def showVerdicts (l : List (String × String)) : String :=
   " ".intercalate (l.map fun (k, v) => k ++ "=" ++ v)
 
+/-! ### classes of the recorded findings X1–X3 (extreme magnitudes; go-moremath arithmetic) -/
+
+/-- the rational at and above which a float64 result rounds to ±Inf: 2^1024 − 2^970 -/
+def overflowAt : Rat := pow2 1024 - pow2 970
+
+/-- **X1** — `Sample.Quantile` interpolates the median as `a + f·(b − a)` between the order statistics
+a = x₍ₖ₎, b = x₍ₖ₊₁₎, k = ⌊(n+1)/2⌋ (f = 0 for odd n, ½ for even n): the class is "b − a rounds to
++Inf", i.e. b − a ≥ 2^1024 − 2^970. (xs sorted ascending, exact values.) -/
+def classX1 (xs : List Rat) : Bool :=
+  let n := xs.length
+  let k := (n + 1) / 2
+  match xs[k - 1]?, xs[k]? with
+  | some a, some b => k ≥ 1 && b - a ≥ overflowAt
+  | _, _ => false
+
+/-- **X2** — `AssumeNormal.Summary` on n ≥ 2 values whose spread max − min is at least 2^505: the
+running mean / squared deviations of moremath's `Mean`/`Variance` leave the float64 range. -/
+def classX2 (xs : List Rat) : Bool :=
+  match minOf xs, maxOf xs with
+  | some mn, some mx => xs.length ≥ 2 && mx - mn ≥ pow2 505
+  | _, _ => false
+
+/-- exact sample variance Σ(x − mean)²/(n − 1) -/
+def variance (xs : List Rat) : Rat :=
+  let n : Rat := ((xs.length : Nat) : Rat)
+  let mean := xs.foldl (· + ·) 0 / n
+  (xs.map fun x => (x - mean) * (x - mean)).foldl (· + ·) 0 / (n - 1)
+
+/-- **X3** — `AssumeNormal.Compare` on samples of sizes ≥ 2 with S = s₁²/n₁ + s₂²/n₂ (exact variances)
+positive and S ≥ 2^505 or S ≤ 2^-530: the Welch degrees of freedom S²/(…) are formed from squares
+of the variances, which overflow (Inf/Inf) or underflow (0/0) to NaN. -/
+def classX3 (x1 x2 : List Rat) (k : Int := 0) : Bool :=
+  if x1.length < 2 || x2.length < 2 then false else
+  let s0 := variance x1 / ((x1.length : Nat) : Rat) + variance x2 / ((x2.length : Nat) : Rat)
+  -- both samples multiplied by 2^k (the rescaled call of the metamorphic check): S scales by 4^k
+  let s := if k ≥ 0 then s0 * pow2 (2 * k.toNat) else s0 / pow2 (2 * (-k).toNat)
+  s > 0 && (s ≥ pow2 505 || s ≤ 1 / pow2 530)
+
+def kfTag (cls : Bool) (id : String) : String := if cls then " kf=" ++ id else ""
+
 def judgeExact (vals : List F64.Bits) (i : ImplSummary) : String :=
   let xs := vals.map toRat
   let centre := match modeOf xs, ev i.center with
@@ -257,7 +297,7 @@ def judgeNothing (vals : List F64.Bits) (conf : F64.Bits) (qlo qhi : Nat) (needT
     if i.warn != infEnd then (if infEnd then "missing-warning" else "spurious-warning")
     else okIf (!infEnd || i.warnText == wantText) "wrong-sample-size"
   showVerdicts [("centre", centre), ("ends", ends), ("bracket", bracket), ("conf", confV), ("warn", warn),
-                ("pct", judgePct i.center i.lo i.hi i.pct)]
+                ("pct", judgePct i.center i.lo i.hi i.pct)] ++ kfTag (classX1 xs) "X1"
 
 /-- tolerance for the running mean m += (x−m)/(i+1): `meanUlps` units in the last place of the
 largest magnitude in the sample -/
@@ -271,17 +311,22 @@ def judgeNormal (vals : List F64.Bits) (conf : F64.Bits) (i : ImplSummary) : Str
   let centre := match ev i.center with
     | .fin c => okIf (rabs (c - mean) ≤ (meanUlps : Nat) * mx / pow2 52 + (n : Nat) / pow2 1074) "not-the-mean"
     | _ => "not-finite"
-  -- t interval: symmetric about the mean (its half-width, a t quantile, is not judged here)
+  -- t interval: symmetric about the mean (its half-width, a t quantile, is not judged here); an
+  -- infinite end of a sample of n ≥ 2 values is legitimate only where mean ± t·s/√n can really leave
+  -- the float64 range: standard error s/√n ≥ 2^1000
+  let hugeSE := n ≥ 2 && variance xs / ((n : Nat) : Rat) ≥ pow2 2000
   let ends := match ev i.lo, ev i.center, ev i.hi with
     | .fin l, .fin c, .fin h =>
-      okIf (rabs ((h - c) - (c - l)) ≤ 4 * rmax (rabs l) (rmax (rabs h) (rabs c)) / pow2 52) "asymmetric"
-    | .negInf, .fin _, .posInf => okIf (n ≤ 1) "infinite"
+      okIf (rabs ((h - c) - (c - l)) ≤ 4 * rmax (rabs l) (rmax (rabs h) (rabs c)) / pow2 52 + 4 / pow2 1074) "asymmetric"
+    | .negInf, .fin _, .posInf => okIf (n ≤ 1 || hugeSE) "infinite"
+    | .negInf, .fin _, .fin _ => okIf hugeSE "infinite"
+    | .fin _, .fin _, .posInf => okIf hugeSE "infinite"
     | _, _, _ => "not-finite"
   let bracket := okIf ((ev i.lo).le (ev i.center) && (ev i.center).le (ev i.hi)) "centre-outside"
   let confV := okIf (i.conf == conf) "not-the-requested"
   let warn := okIf (!i.warn) "spurious-warning"
   showVerdicts [("centre", centre), ("ends", ends), ("bracket", bracket), ("conf", confV), ("warn", warn),
-                ("pct", judgePct i.center i.lo i.hi i.pct)]
+                ("pct", judgePct i.center i.lo i.hi i.pct)] ++ kfTag (classX2 xs) "X2"
 
 /-! ### comparisons -/
 
@@ -352,7 +397,8 @@ def closeOrEqual (exactBits : Bool) (a b : F64.Bits) : Bool :=
 def ranks (pool : List Rat) (xs : List Rat) : List Nat :=
   xs.map fun x => ((pool.eraseDups).filter (· < x)).length
 
-def judgeCompare (a : String) (v1 v2 : List F64.Bits) (alpha old new : F64.Bits) (i : ImplComparison) : String :=
+def judgeCompare (a : String) (v1 v2 : List F64.Bits) (alpha old new : F64.Bits) (i : ImplComparison)
+    (k : Int := 0) : String :=
   let nOK := okIf (i.n1 == v1.length && i.n2 == v2.length) "wrong-sizes"
   let prange := match ev i.p with
     | .fin q => okIf (0 ≤ q && q ≤ 1) "outside-[0,1]"
@@ -387,6 +433,11 @@ def judgeCompare (a : String) (v1 v2 : List F64.Bits) (alpha old new : F64.Bits)
   let (shown, delta) := judgeDelta i.p i.alpha old new i.delta
   showVerdicts [("n", nOK), ("prange", prange), ("sym", sym), ("shuf", shuf), ("scale", scale), ("exact", exact),
                 ("alpha", alphaV), ("warn", warnV), ("shown", shown), ("delta", delta), ("str", judgeStr i.p i.n1 i.n2 i.str)]
+    ++ kfTag (a == "normal" && (classX3 (v1.map toRat) (v2.map toRat) || classX3 (v1.map toRat) (v2.map toRat) k)) "X3"
+
+/-- a case on which the real code panicked: the property demands a result -/
+def judgePanic (kind a : String) (v1 v2 : List F64.Bits) : String :=
+  "panic=0" ++ kfTag (kind == "cmp" && a == "normal" && classX3 (v1.map toRat) (v2.map toRat)) "X3"
 
 def judgeRenderCmp (p alpha : F64.Bits) (n1 n2 : Nat) (old new : F64.Bits) (delta str : String) : String :=
   let (shown, d) := judgeDelta p alpha old new delta
